@@ -611,17 +611,76 @@ fn misplaced_in_other_contexts() -> Vec<(String, String)> {
     out
 }
 
-pub fn corpus(tier: Tier) -> Vec<Vec<Stmt>> {
-    let max = tier.pick(4, 5);
-    let mut memo = BTreeMap::new();
-    let mut all: Vec<Vec<Stmt>> = Vec::new();
-    for n in 1..=max {
-        for mut b in blocks(n, 2, &mut memo) {
-            let mut k = 0;
-            uniquify(&mut b, &mut k);
-            all.push(b);
+/// Stream every policy body of total size exactly `n` (nesting ≤ 2) to `sink` without
+/// materialising the top level; nested blocks and tails (all of size < n) come from `memo`.
+fn for_each_block(n: usize, memo: &mut BTreeMap<(usize, u32), Vec<Vec<Stmt>>>, sink: &mut dyn FnMut(Vec<Stmt>)) {
+    let depth = 2u32;
+    if n == 0 {
+        return;
+    }
+    for fl in flists(n - 1) {
+        sink(vec![Stmt::Finish(fl)]);
+    }
+    let mut names = 0u32;
+    let simples = simple_stmts(&mut names);
+    for rest in blocks(n - 1, depth, memo) {
+        for s in &simples {
+            if matches!(s, Stmt::Recall(..)) && !rest.is_empty() {
+                continue;
+            }
+            let mut b = vec![s.clone()];
+            b.extend(rest.iter().cloned());
+            sink(b);
         }
     }
+    for inner in 0..n {
+        let rests = blocks(n - 1 - inner, depth, memo);
+        for b1 in blocks(inner, depth - 1, memo) {
+            for c in conds() {
+                for rest in &rests {
+                    let mut b = vec![Stmt::If(vec![(c.clone(), b1.clone())], None)];
+                    b.extend(rest.iter().cloned());
+                    sink(b);
+                }
+            }
+        }
+        for i1 in 0..=inner {
+            let b1s = blocks(i1, depth - 1, memo);
+            let b2s = blocks(inner - i1, depth - 1, memo);
+            for b1 in &b1s {
+                for b2 in &b2s {
+                    for rest in &rests {
+                        let mut b = vec![Stmt::If(vec![(conds()[0].clone(), b1.clone())], Some(b2.clone()))];
+                        b.extend(rest.iter().cloned());
+                        sink(b);
+                        let mut m = vec![Stmt::Match(
+                            this("x"),
+                            vec![(Pat::Vals(vec![PatVal::Lit(Expr::Int(0))]), b1.clone()), (Pat::Default, b2.clone())],
+                        )];
+                        m.extend(rest.iter().cloned());
+                        sink(m);
+                    }
+                }
+            }
+        }
+    }
+}
+
+/// Every policy of size 1..=max, streamed (same order and content as `blocks(n, 2)`).
+pub fn for_each_policy(max: usize, sink: &mut dyn FnMut(Vec<Stmt>)) {
+    let mut memo = BTreeMap::new();
+    for n in 1..=max {
+        for_each_block(n, &mut memo, &mut |mut b| {
+            let mut k = 0;
+            uniquify(&mut b, &mut k);
+            sink(b);
+        });
+    }
+}
+
+pub fn corpus(tier: Tier) -> Vec<Vec<Stmt>> {
+    let mut all = Vec::new();
+    for_each_policy(tier.pick(4, 5), &mut |b| all.push(b));
     all
 }
 
@@ -645,38 +704,70 @@ pub fn run_policies(rep: &mut Report, all: &[Vec<Stmt>], goes_wrong_only: bool) 
 pub fn run(args: &Args) {
     let mut rep = Report::new(args, Level::ModelChecking);
     rep.set_max_samples(8);
-    let mut all = corpus(args.tier);
-    if let Some(path) = &args.replay {
+    let max = args.tier.pick(4usize, 5usize);
+    let replay_key = args.replay.as_ref().map(|path| {
         let body: mcx::Value = std::fs::read_to_string(path)
             .ok()
             .and_then(|s| mcx::serde_json::from_str(&s).ok())
             .unwrap_or_else(|| mcx::machinery_error("cannot read replay file"));
-        let key = body["key"].as_str().unwrap_or("").to_string();
-        all = corpus(Tier::Thorough).into_iter().filter(|p| policy_key(p) == key).collect();
+        body["key"].as_str().unwrap_or("").to_string()
+    });
+    // policies are generated and run in bounded chunks; the small ones are kept for part (3)
+    let misplaced_bound = args.tier.pick(3usize, 4usize);
+    let mut small: Vec<Vec<Stmt>> = Vec::new();
+    let mut pending: Vec<Vec<Stmt>> = Vec::new();
+    let mut seen = 0u64;
+    {
+        let rep_cell = std::cell::RefCell::new(&mut rep);
+        for_each_policy(if replay_key.is_some() { 5 } else { max }, &mut |p| {
+            if let Some(k) = &replay_key {
+                if &policy_key(&p) != k {
+                    return;
+                }
+            }
+            seen += 1;
+            if seen % 20011 == 1 {
+                rep_cell.borrow_mut().sample(json!({"policy": policy_key(&p)}));
+            }
+            if replay_key.is_none() && stmt_size(&p) <= misplaced_bound {
+                small.push(p.clone());
+            }
+            pending.push(p);
+            if pending.len() >= 100 * 256 {
+                run_policies(&mut rep_cell.borrow_mut(), &pending, false);
+                pending.clear();
+            }
+        });
+        if !pending.is_empty() {
+            run_policies(&mut rep_cell.borrow_mut(), &pending, false);
+        }
     }
-    for p in all.iter().step_by((all.len() / 5).max(1)).take(5) {
-        rep.sample(json!({"policy": policy_key(p)}));
+    if replay_key.is_some() && seen == 0 {
+        mcx::machinery_error("replay policy is not in the enumerated space");
     }
-    run_policies(&mut rep, &all, false);
 
     // (3) misplaced finish-only statements must be rejected
-    let mut variants: Vec<(String, String)> = misplaced_in_other_contexts();
-    let small: Vec<&Vec<Stmt>> = all.iter().filter(|p| args.tier == Tier::Thorough || stmt_size(p) <= 3).collect();
-    for p in &small {
-        variants.extend(misplaced_variants(p));
-    }
-    let results: Vec<(bool, &(String, String))> =
-        variants.par_iter().map(|v| (vmrun::compile_text(&v.1, Ffi::None).is_ok(), v)).collect();
-    for (accepted, (desc, _text)) in results {
-        rep.count("misplaced_variants", 1);
-        rep.count("disagreements_checked", 1);
-        if accepted {
-            rep.outcome("misplaced_accepted", 1);
-            rep.violation(desc.clone(), "the compiler accepted a finish-only statement outside a finish block/function", json!({"variant": desc}));
-        } else {
-            rep.count("misplaced_rejected", 1);
-            rep.outcome("misplaced_rejected", 1);
+    let mut check_variants = |rep: &mut Report, variants: Vec<(String, String)>| {
+        let results: Vec<bool> = variants.par_iter().map(|v| vmrun::compile_text_quiet(&v.1, Ffi::None).is_ok()).collect();
+        for (accepted, (desc, _text)) in results.into_iter().zip(variants) {
+            rep.count("misplaced_variants", 1);
+            rep.count("disagreements_checked", 1);
+            if accepted {
+                rep.outcome("misplaced_accepted", 1);
+                rep.violation(desc.clone(), "the compiler accepted a finish-only statement outside a finish block/function", json!({"variant": desc}));
+            } else {
+                rep.count("misplaced_rejected", 1);
+                rep.outcome("misplaced_rejected", 1);
+            }
         }
+    };
+    check_variants(&mut rep, misplaced_in_other_contexts());
+    for chunk in small.chunks(2000) {
+        let mut variants = Vec::new();
+        for p in chunk {
+            variants.extend(misplaced_variants(p));
+        }
+        check_variants(&mut rep, variants);
     }
     // sanity: the unmodified shared prelude + an empty-finish command must compile, otherwise the
     // rejections above would be vacuous
@@ -689,7 +780,8 @@ pub fn run(args: &Args) {
         mcx::machinery_error("generator produced policies the reference interpreter does not model");
     }
     rep.set("exhaustive", args.replay.is_none());
-    rep.set("max_policy_size", args.tier.pick(4u64, 5u64));
+    rep.set("max_policy_size", max as u64);
+    rep.set("misplacement_checked_for_policies_up_to_size", misplaced_bound as u64);
     rep.set("inputs_per_policy", inputs().len() as u64);
     rep.set(
         "bounds",
